@@ -114,6 +114,33 @@ func Load(dir string, whole bool, overlay map[string][]byte) (*Program, error) {
 		p.ssaPkg[sp.Pkg.Path()] = sp
 	}
 	p.allFns = ssautil.AllFunctions(prog)
+	// AllFunctions omits methods of unexported types that nothing references; they are
+	// still source the rules must see (e.g. a lock-discipline rule over every method).
+	for _, sp := range prog.AllPackages() {
+		if !strings.HasPrefix(sp.Pkg.Path(), ModPath) {
+			continue
+		}
+		for _, mem := range sp.Members {
+			tm, ok := mem.(*ssa.Type)
+			if !ok {
+				continue
+			}
+			if _, isIface := tm.Type().Underlying().(*types.Interface); isIface {
+				continue
+			}
+			for _, t := range []types.Type{tm.Type(), types.NewPointer(tm.Type())} {
+				ms := prog.MethodSets.MethodSet(t)
+				for i := 0; i < ms.Len(); i++ {
+					if fn := prog.MethodValue(ms.At(i)); fn != nil && fn.Synthetic == "" {
+						p.allFns[fn] = true
+						for _, an := range fn.AnonFuncs {
+							p.allFns[an] = true
+						}
+					}
+				}
+			}
+		}
+	}
 	for fn := range p.allFns {
 		if fn.Pkg != nil && strings.HasPrefix(fn.Pkg.Pkg.Path(), ModPath) && fn.Blocks != nil && fn.Synthetic == "" {
 			p.repoFns = append(p.repoFns, fn)
